@@ -11,7 +11,7 @@ from vlib import fixchecks
 
 PROP = "C15"
 RULESETS = "capitalisation cap_upper cap_lower cap_pascal cap_snake cap_camel".split()
-KINDS = "fixture mutant gen".split()
+KINDS = "fixture mutant gen quo".split()
 WHAT = "fixing with capitalisation rules changed more than the letter case of unquoted code"
 
 
@@ -21,7 +21,7 @@ def run(ctx, prove=True):
     if prove:
         ctx.prove(["SqlfluffVerif.Props.C15"], ["Props/C15.lean"])
     ctx.partial += ["the rules' edits are not modelled one by one: the theorem composes edits that satisfy the per-edit condition, the end-to-end spec is evaluated on real runs"]
-    fixchecks.run_universe(ctx, PROP, RULESETS, ctx.budget(160, 10 ** 9), WHAT, KINDS)
+    fixchecks.run_universe(ctx, PROP, RULESETS, ctx.budget(300, 10 ** 9), WHAT, KINDS, focus=("quo",))
 
 
 def search(ctx):
